@@ -30,6 +30,20 @@ def run_registry(ctx, mon_cfg, nl, ns):
                     {"events": evs, "failing_event": x["event"]})
     return behs, summ
 
+def run_restart_family(ctx, hb, tag="regrestart"):
+    """listeners across a real restart (Registry.tla Restart): the running set, the stored set and every restored listener's configuration"""
+    behs = core.generate(ctx, "Gen_Registry.tla", "Gen_Registry_Restart.cfg", 0, 0, ctx.seed, bfs=True, timeout=900)
+    trace, summ = core.run_harness(ctx, hb, "registry", behs, tag, timeout=3000)
+    for inc in summ["incidents"]:
+        core.report(ctx, {"check": "replay-restart", "kind": inc["kind"], "site": inc["site"], "where": _where(inc["detail"])}, inc)
+    v = core.validate_traces(ctx, "Trace_Registry.tla", "Trace_Registry_strict.cfg", "Trace_Registry_mon16.cfg", trace, tag, timeout=3000)
+    for x in v["violations"]:
+        evs = [json.loads(l) for l in x["lines"]]
+        ev = evs[x["event"] - 1] if 0 < x["event"] <= len(evs) else {}
+        core.report(ctx, {"check": "Mon_Registry", "invariant": x["invariant"], "op": ev.get("ev", "?"), "b": str(ev.get("b", "")).split(":")[0]},
+                    {"events": evs, "failing_event": x["event"]})
+    return behs, summ
+
 def _where(detail):
     import re
     m = re.findall(r"Havoc/[\w/]+\.\(?\*?\w*\)?\.?(\w+)\(", detail or "")
